@@ -444,7 +444,13 @@ func (v *Value) IterateOrder(fn func(idx, count int, key, value *Value) bool, em
 
 		itemCount := v.getResolvedValue().Len()
 		for i := 0; i < itemCount; i++ {
-			items = append(items, &Value{val: v.getResolvedValue().Index(i)})
+			item := v.getResolvedValue().Index(i)
+			if item.Kind() == reflect.Interface {
+				// e. g. the elements of a []any: look at the element itself,
+				// otherwise `sorted` compares "<interface {} Value>" strings
+				item = item.Elem()
+			}
+			items = append(items, &Value{val: item})
 		}
 
 		if sorted {
